@@ -173,12 +173,14 @@ class SmtpSession(object):
         if isinstance(err, MessageTooBig):
             reply.code = '552'
             reply.message = '5.3.4 Message exceeded size limit'
+            self.envelope = None
             return
         elif err:
             raise err
 
         self._call_validator('have_data', reply, data)
         if reply.code != '250':
+            self.envelope = None
             return
 
         if self._ptr_lookup is not None:
